@@ -6,6 +6,7 @@ from collections import defaultdict
 from cfg import CFG, error_blocks
 from prov import narrow
 from pat import *
+from facts import Operand
 
 EXPLANATION = ("structural rules over the MIR of wac_types::checker: every field of every type the checker compares flows into a "
                "comparison (field coverage from ADT definitions), recursive checks are called with the two sides straight outside and "
@@ -114,6 +115,7 @@ def run(ctx):
     check_memo(ctx)
     check_limits(ctx)
     check_use_site(ctx)
+    check_cross_kind(ctx)
 
 
 def check_variance(ctx, fns):
@@ -358,3 +360,54 @@ def check_use_site(ctx):
                    "the incoming edges of the instantiation are scanned for the same argument index before the edge is added" if ok2 else
                    "no scan of incoming argument edges dominates the new edge: an argument could be passed twice", site=site)
     ctx.ob("R07.6", "count", n >= 1, "Argument add_edge sites: %d" % n, nontrivial=False)
+
+
+def check_cross_kind(ctx, rule="R07.5"):
+    """R07.5: in every `match (a, b)` dispatch of the checker, a comparing callee is reached only through
+    same-variant edges: mixed pairs (e.g. own vs borrow) must fall through to the mismatch arm."""
+    import tables
+    db, prov = ctx.db, ctx.prov
+    n = 0
+    for f in checker_fns(db):
+        if "{closure" in f.id:
+            continue
+        cfg = CFG(f)
+        sw = tables.switch_arms(db, prov, f)
+        by_block = {b: (adt, arms) for b, adt, arms, other in sw}
+        d = prov.defs(f)
+
+        def discr_place(b):
+            t = cfg.blocks[b].term
+            op = Operand(t.j["discr"])
+            for kind, site in d.defs.get(op.place.local, ()):
+                if kind == "stmt" and site.rv.k == "discr":
+                    return repr(site.rv.place)
+            return None
+        for b, (adt, arms) in by_block.items():
+            for va, tga in arms:
+                # an inner switch on the same ADT but another place, reached on a straight line
+                x = tga
+                inner = None
+                for _ in range(4):
+                    if x in by_block and by_block[x][0] == adt and discr_place(x) != discr_place(b):
+                        inner = x
+                        break
+                    su = cfg.succ[x]
+                    if len(su) != 1:
+                        break
+                    x = su[0]
+                if inner is None:
+                    continue
+                for vb, tgb in by_block[inner][1]:
+                    region = tables.arm_region(cfg, tgb, set(), limit=8)
+                    calls = [cfg.blocks[r].term for r in region if cfg.blocks[r].term.k == "call"]
+                    compares = [t for t in calls if (t.path or "").startswith(CK) and t.path.rsplit("::", 1)[1] not in NON_COMPARING]
+                    if not compares:
+                        continue
+                    n += 1
+                    ok = va == vb
+                    ctx.ob(rule, "pair|%s|%s-%s" % (f.id.rsplit("::", 1)[1], va, vb), ok,
+                           "(%s, %s) is compared by %s" % (va, vb, compares[0].path.rsplit("::", 1)[1]) if ok else
+                           "the mixed pair (%s, %s) of %s reaches the comparison `%s` instead of the mismatch arm: the two kinds are conflated" % (va, vb, adt.split("::")[-1], compares[0].path.rsplit("::", 1)[1]),
+                           site="%s in %s" % (compares[0].span, f.id))
+    ctx.ob(rule, "pair-count", n >= 20, "same-variant dispatch pairs checked: %d" % n, nontrivial=False)
